@@ -162,9 +162,12 @@ def fetchSeqOp (j : Json) : Except String Res := do
     | _ => 0
   let timely := timeoutS == 0 || (msA.zip reqCounts).all fun (ms, n) => ms ≤ (n + 1) * (2 * timeoutS * 1000) + 1500
   let canary := ((j.getObjVal? "canaryhits").toOption.bind (·.getNat?.toOption)).getD 0
+  -- no TLS handshake of the exchange resumed an earlier session (no ticket was offered)
+  let resumed := ((j.getObjVal? "resumed").toOption.bind (·.getNat?.toOption)).getD 0
   -- strip timing from the implementation's rounds happens in the harness-independent comparison:
   pure { model := Json.arr out,
-         preds := [("same_result_as_cold_cache", transparent), ("returns_within_time_bound", timely), ("requests_wellformed", okReq), ("no_plaintext_connection", canary == 0)],
+         preds := [("same_result_as_cold_cache", transparent), ("returns_within_time_bound", timely), ("requests_wellformed", okReq), ("no_plaintext_connection", canary == 0),
+                   ("no_session_resumption", resumed == 0)],
          nontrivial := hops ≥ 2 }
 
 end Ops
